@@ -339,7 +339,10 @@ pub async fn run_case(
     emit: &mut dyn FnMut(&str, &str),
 ) {
     let mut ids = Ids::default();
-    let mut node = Node::new(9, Cfg::new(GP, HEARTBEAT, prune_after));
+    // every second case the node's own wallet key is one of the keys the tree's transactions move value between (key 2 owns
+    // two genesis outputs and creates blocks), so that the wallet takes part in winding, unwinding and rejection
+    let own_key = if order.len() % 2 == 1 { 2 } else { 9 };
+    let mut node = Node::new(own_key, Cfg::new(GP, HEARTBEAT, prune_after));
     let oracle = Oracle { tree };
     emit("S", &format!("reset {} 0", GP));
     let mut seq: Vec<(&Block, bool)> = vec![(&tree.genesis, true)];
@@ -353,6 +356,7 @@ pub async fn run_case(
     let (mut f_orphan, mut f_failed, mut f_nonexist, mut f_tampered) = (false, false, false, false);
     let wire_delivery = seq.len() % 2 == 0 || seq.len() >= 6;
     emit("H", if wire_delivery { "delivery:wire-form" } else { "delivery:in-memory-object" });
+    emit("H", if own_key == 2 { "node-key:takes-part-in-the-history" } else { "node-key:stranger" });
     for (step, (b, honest)) in seq.iter().enumerate() {
         let onp = validates_without_parent(b, &node.cfg).await;
         let op = project(b, *honest, onp, &mut ids);
